@@ -24,7 +24,7 @@ REQUIRED_FUNCTIONS = ["program.py:BlackbirdProgram.serialize", "program.py:numpy
 FUNCTIONS = REQUIRED_FUNCTIONS
 REQUIRED_TAGS = ["kind:np.int64", "kind:np.float64", "kind:np.complex128", "kind:int", "kind:float", "kind:complex", "kind:bool", "kind:str",
                  "kind:list", "kind:array:i", "kind:array:f", "kind:array:c", "kind:sympy", "options", "options-list", "np-int-modes",
-                 "neg-zero", "subnormal", "huge", "no-arglist", "type:tdm", "string:name-like",
+                 "neg-zero", "subnormal", "huge", "no-arglist", "type:tdm", "string:name-like", "tdm:variables", "tdm:variable-named-like-hoisted-array", "tdm:option-string-names-a-variable", "tdm:p-array-by-name",
                  "twin-array:same-object", "twin-array:equal-other-dtype", "twin-array:zeros-other-dtype", "twin-array:equal-copy", "twin-array:same-bytes-other-shape",
                  "layout:transpose", "layout:fortran", "layout:flip-rows", "layout:strided"]
 ASSUMPTIONS = ["supported values as listed in the property; lists only in keyword position and options (no script can denote a positional list)",
@@ -269,6 +269,24 @@ class Builder:
                 p._type["name"] = "tdm"
                 self.tags.add("type:tdm")
             p._type["options"] = self.options()
+        pnames = []
+        if p._type["name"] == "tdm" and r.random() < 0.7:
+            # variables of a tdm program: p-arrays (passed by name), and ordinary variables whose names are the ones the
+            # serialiser would pick for hoisted arrays
+            for nm_ in r.sample(["p0", "p1", "p2", "p7", "p42"], r.choice([1, 1, 2, 3])):
+                p._var[nm_] = np.ascontiguousarray(self.array())
+                pnames.append(nm_)
+            for nm_ in r.sample(["A0", "A1", "A2", "A3"], r.choice([0, 1, 1, 2])):
+                p._var[nm_] = self.array() if r.random() < 0.5 else r.choice([self.i(), self.f(), self.c()])
+                self.tags.add("tdm:variable-named-like-hoisted-array")
+            self.tags.add("tdm:variables")
+            if r.random() < 0.5:
+                for key in ("_target", "_type"):
+                    d_ = getattr(p, key)
+                    if d_["name"] is not None and r.random() < 0.6:
+                        d_["options"] = dict(d_["options"] or {})
+                        d_["options"][self.G.ident(fresh=False)] = r.choice(pnames + ["A0"]) if r.random() < 0.7 else [1, r.choice(pnames)]
+                        self.tags.add("tdm:option-string-names-a-variable")
         for _ in range(r.choice([1, 2, 2, 3, 5, 8])):
             nm = r.choice([1, 1, 2, 3, 4])
             modes = r.sample(range(0, 40), nm)
@@ -278,6 +296,9 @@ class Builder:
             op = {"op": self.G.opname(), "modes": modes}
             if r.random() < 0.85:
                 op["args"] = [self.value(True) for _ in range(r.choice([0, 1, 1, 2, 3]))]
+                if pnames and r.random() < 0.5:
+                    op["args"].insert(r.randint(0, len(op["args"])), r.choice(pnames))
+                    self.tags.add("tdm:p-array-by-name")
                 kw = {}
                 for _ in range(r.choice([0, 0, 1, 2, 3])):
                     kw[self.G.ident(fresh=False)] = self.value(False)
@@ -345,6 +366,16 @@ def check_program(ctx, p, tags=(), kinds=()):
         if has_empty_list(c0) and all(x[1] == "kwarg-keys" for x in d) and _only_empty_missing(c0, c1):
             return ctx.violation("empty-list-kwarg-dropped", "an empty-list keyword argument does not survive dumps/loads: " + common.diff_text(d, 2), witness)
         return ctx.violation(common.diff_key(d), common.diff_text(d), witness)
+    # variables the program was given (tdm programs declare them in the script): each must come back exactly
+    for k, v in p.variables.items():
+        if isinstance(v, sym.Basic):
+            continue
+        if k not in q.variables:
+            return ctx.violation("variable-lost", "variable %r of the program is not declared by the reloaded script" % k, witness)
+        dv = []
+        content.diff_values(v, q.variables[k], "variables." + k, content.Cfg(numbers="exact", seed="C09v"), dv)
+        if dv:
+            return ctx.violation(common.diff_key(dv), common.diff_text(dv), witness)
 
 
 def _only_empty_missing(c0, c1):
